@@ -56,6 +56,40 @@ theorem roundtrip_eq (d : DocD) (hv : Valid d) (ho : OrderedCats d) (hx : ExitsB
   have hn := nodeOk_of d hv ho hx hu
   simp [roundtrip, load_ok d hv hn, render_ok d hv hn]
 
+/-! ### repeated round trips are equal -/
+
+/-- the output is explicit: `shapeDoc d` (the input with falsy optional values dropped,
+`destination_uuid` always written, `_ui` reduced to positions in node order, group
+attributes of the top-level list dropped, triggers in two-keyword form) -/
+theorem roundtrip_shape (d : DocD) (hv : Valid d) (ho : OrderedCats d) (hx : ExitsByCats d)
+    (hu : UntypedFields d) : roundtrip d = .ok (shapeDoc d) := by
+  rw [roundtrip_eq d hv ho hx hu, outDoc_eq_shapeDoc d (nodeOk_of d hv ho hx hu)]
+
+/-- **C05, repeated round trips** (`_partial`: on the domain of `render_load`; see
+`C05_idem_full`).  The second round trip returns exactly the document the first one
+returned — equality, not `≈`. -/
+theorem render_load_idem_partial (d o : DocD) (hv : Valid d) (ho : OrderedCats d) (hx : ExitsByCats d)
+    (hu : UntypedFields d) (h : roundtrip d = .ok o) : roundtrip o = .ok o := by
+  rw [roundtrip_shape d hv ho hx hu] at h
+  cases h
+  rw [roundtrip_shape (shapeDoc d) (valid_shapeDoc d hv) (ordered_shapeDoc d ho) (exitsByCats_shapeDoc d hx)
+    (untyped_shapeDoc d hu), shapeDoc_idem]
+
+/-- The full statement of the design (no ordering hypotheses: the re-join of categories is
+idempotent even when it reorders).  NOT proved: the lemmas about `loadRouter` need the
+categories in re-join order (`orderedRouter`) and the exits in category order; lifting them
+needs a permutation argument for `others ++ [default] ++ [no_response]` and the case of
+categories sharing an exit.  Checked on every generated and fixture document instead
+(oracle C: second round trip EQUAL to the first, incl. the F-C05-c and F-C05-d streams). -/
+def C05_idem_full : Prop :=
+  ∀ d o o' : DocD, roundtrip d = .ok o → roundtrip o = .ok o' → o' = o
+
+/-- `render_load_idem_partial` in the form of `C05_idem_full` -/
+theorem render_load_idem_partial' (d o o' : DocD) (hv : Valid d) (ho : OrderedCats d) (hx : ExitsByCats d)
+    (hu : UntypedFields d) (h : roundtrip d = .ok o) (h' : roundtrip o = .ok o') : o' = o := by
+  rw [render_load_idem_partial d o hv ho hx hu h] at h'
+  cases h'; rfl
+
 /-! ### legacy triggers -/
 
 /-- A legacy single-keyword trigger (`keyword`, no `keywords`) comes out carrying both
